@@ -5,10 +5,11 @@ NoKVModel/Snap and Props/C05 needs about the watermark is stated here as a lemma
 
   * one micro-step of a call record (`Eff`, `run_eff`) and one call entry (`SpawnEff`, `spawn_eff`)
     of the four calls the oracle makes (`Snap.Call`: Begin, Done, WaitForMark, bare tryAdvance);
-  * which steps keep `txnMark` inside the watermark system WITH the usage contract
-    (`run_reach`, `spawn_reach`, `begin_reach`);
-  * what C32's invariants give in such a state (`above_mark`, `begin_unpublished`, `du_le_last`,
-    `wait_returned_le`, `begun_counted`, `begin_done_stage`, `init_*`).
+  * `Ok`: C32's invariants `N`, `W` (+ `BC`) as a predicate on a watermark state — true of a fresh
+    watermark AND of one re-seeded by SetDoneUntil/SetLastIndex (reopen), kept by every step of the
+    watermark system WITH the usage contract (`Ok.step`; `run_eff`, `spawn_reach`, `begin_reach`);
+  * what the invariants give in an Ok state (`above_mark`, `begin_unpublished`, `du_le_last`,
+    `wait_returned_le`, `begun_counted`, `begin_done_stage`).
 
 When Conc/Watermark*.lean changes, this is the file to repair; the statements below are meant to
 stay.  The auxiliary kinds `count` / `publish` (BeginMany) cannot occur under the contract
@@ -329,29 +330,149 @@ theorem spawn_eff (c : WMCfg) (ct : Bool) (s s' : St) (w : Nat) (call : Call)
         by simp [Kind.isBegin, setThr, Call.kind]⟩
     · cases h
 
-/-! ### staying inside the watermark system with the usage contract -/
+/-! ### the states of `txnMark`: C32's invariants, from a fresh OR a re-seeded watermark -/
 
-/-- one micro-step of a call record, from a state of the contract system: its record, its effect,
-and the successor is again a state of the contract system -/
+/-- a `Begin(i)` past its first micro-step has been counted -/
+def BC (s : St) : Prop :=
+  ∀ w t i, s.thr w = some t → t.kind = .begin i → 1 ≤ t.stage → 1 ≤ s.nCounted i
+
+/-- What the composition knows about `txnMark`: C32's contract invariant `N`, its waiter invariant
+`W`, and `BC`.  Holds for a fresh watermark, for one re-seeded by `SetDoneUntil(n)` /
+`SetLastIndex(n)` (`oracle.initCommitState` after a reopen), and is preserved by every step of the
+watermark system WITH the usage contract. -/
+structure Ok (s : St) : Prop where
+  n : N s
+  w : W s
+  bc : BC s
+
+open NoKV.Snap in
+theorem Ok.seeded (n : Nat) : Ok (seededWM n n) := by
+  refine ⟨⟨Nat.le_refl _, ?_, ?_, ?_, ?_, ?_, ?_⟩, ?_, ?_⟩
+  · intro j _; simp [seededWM, initSt]
+  · intro j; rfl
+  · intro j _; simp [seededWM, initSt]
+  · intro tid t ht; simp [seededWM, initSt] at ht
+  · intro i j ti tj hi; simp [seededWM, initSt] at hi
+  · intro tid t ht; simp [seededWM, initSt] at ht
+  · intro tid t ht; simp [seededWM, initSt] at ht
+  · intro w t i ht; simp [seededWM, initSt] at ht
+
+theorem Ok.fresh : Ok initSt := by
+  have := Ok.seeded 0
+  exact this
+
+theorem W.preserved (c : WMCfg) (ct : Bool) {s s' : St} {a : Act} (hW : W s) (hs : step c ct s a = some s') :
+    W s' := by
+  have fresh : ∀ (tid : Nat) (k : Kind), WT s.doneUntil ({ kind := k } : Thr) := by
+    intro tid k; exact ⟨by simp, by simp, by simp⟩
+  cases a with
+  | begin tid i =>
+    simp only [step] at hs
+    split at hs <;> cases hs
+    exact W.set hW (Nat.le_refl _) tid _ (fresh tid _)
+  | done tid i =>
+    simp only [step] at hs
+    split at hs <;> cases hs
+    exact W.set hW (Nat.le_refl _) tid _ (fresh tid _)
+  | wait tid i =>
+    simp only [step] at hs
+    split at hs <;> cases hs
+    exact W.set hW (Nat.le_refl _) tid _ (fresh tid _)
+  | adv tid =>
+    simp only [step] at hs
+    split at hs <;> cases hs
+    exact W.set hW (Nat.le_refl _) tid _ (fresh tid _)
+  | count tid i =>
+    simp only [step] at hs
+    split at hs <;> cases hs
+    exact W.set hW (Nat.le_refl _) tid _ (fresh tid _)
+  | publish tid i =>
+    simp only [step] at hs
+    split at hs <;> cases hs
+    exact W.set hW (Nat.le_refl _) tid _ (fresh tid _)
+  | run tid =>
+    simp only [step] at hs
+    cases ht : s.thr tid with
+    | none => simp [ht] at hs
+    | some t => simp only [ht] at hs; exact W.step_thr c hW ht hs
+
+theorem BC.preserved (c : WMCfg) (hc : c.countsFirst = true) {s s' : St} {a : Act} (hn : N s) (ih : BC s)
+    (hst : step c true s a = some s') : BC s' := by
+  intro w t i ht hk hstage
+  -- a call entry: the new record is at stage 0, the counters do not move
+  have spawnCase : ∀ (x : Nat) (t0 : Thr), t0.stage = 0 → s'.thr x = some t0 →
+      (∀ y, y ≠ x → s'.thr y = s.thr y) → s'.nCounted = s.nCounted → 1 ≤ s'.nCounted i := by
+    intro x t0 h0 hself hoth hcnt
+    rw [hcnt]
+    by_cases hw : w = x
+    · subst hw; rw [hself] at ht; cases ht; omega
+    · rw [hoth w hw] at ht; exact ih w t i ht hk hstage
+  cases a with
+  | begin x j =>
+    simp only [step] at hst; split at hst <;> cases hst
+    exact spawnCase x { kind := .begin j } rfl (by simp [setThr]) (fun y hy => by simp [setThr, upd_other _ _ _ _ hy]) rfl
+  | done x j =>
+    simp only [step] at hst; split at hst <;> cases hst
+    exact spawnCase x { kind := .done j } rfl (by simp [setThr]) (fun y hy => by simp [setThr, upd_other _ _ _ _ hy]) rfl
+  | wait x j =>
+    simp only [step] at hst; split at hst <;> cases hst
+    exact spawnCase x { kind := .wait j } rfl (by simp [setThr]) (fun y hy => by simp [setThr, upd_other _ _ _ _ hy]) rfl
+  | adv x =>
+    simp only [step] at hst; split at hst <;> cases hst
+    exact spawnCase x { kind := .adv } rfl (by simp [setThr]) (fun y hy => by simp [setThr, upd_other _ _ _ _ hy]) rfl
+  | count x j =>
+    simp only [step] at hst; split at hst
+    · rename_i hg; exact absurd hg.2.1 (by simp)
+    · cases hst
+  | publish x j =>
+    simp only [step] at hst; split at hst
+    · rename_i hg; exact absurd hg.2 (by simp)
+    · cases hst
+  | run x =>
+    simp only [step] at hst
+    cases hx : s.thr x with
+    | none => simp [hx] at hst
+    | some tx =>
+      simp only [hx] at hst
+      have e := stepThr_eff c hc s s' x tx (hn.noAux x tx hx) hx hst
+      by_cases hw : w = x
+      · subst hw
+        obtain ⟨t', ht', hk', h1, h2⟩ := e.self
+        rw [ht] at ht'; cases ht'
+        by_cases h0 : tx.stage = 0
+        · exact e.first i (hk' ▸ hk) h0
+        · exact Nat.le_trans (ih w tx i hx (hk' ▸ hk) (by omega)) (e.cntMono i)
+      · cases hw' : s.thr w with
+        | none => rw [e.absent w hw'] at ht; cases ht
+        | some tw =>
+          obtain ⟨tw', h1, h2, h3⟩ := e.oth w tw hw hw'
+          rw [ht] at h1; cases h1
+          exact Nat.le_trans (ih w tw i hw' (h2 ▸ hk) (h3 ▸ hstage)) (e.cntMono i)
+
+/-- every step of the watermark system WITH the usage contract keeps `Ok` -/
+theorem Ok.step (c : WMCfg) (hc : c.countsFirst = true) {s s' : St} {a : Act} (h : Ok s)
+    (hs : step c true s a = some s') : Ok s' :=
+  ⟨N.preserved hc h.n hs, W.preserved c true h.w hs, BC.preserved c hc h.n h.bc hs⟩
+
+/-! ### the steps the oracle makes keep `txnMark` Ok -/
+
+/-- one micro-step of a call record: its record, its effect, and the successor is Ok again -/
 theorem run_eff (c : WMCfg) (hc : c.countsFirst = true) (s s' : St) (w : Nat)
-    (hr : Reachable (sys c true) s) (h : step c false s (.run w) = some s') :
-    Reachable (sys c true) s' ∧ ∃ t, s.thr w = some t ∧ Eff s s' w t := by
+    (hr : Ok s) (h : step c false s (.run w) = some s') :
+    Ok s' ∧ ∃ t, s.thr w = some t ∧ Eff s s' w t := by
+  have h0 := h
   simp only [step] at h
   cases hw : s.thr w with
   | none => simp [hw] at h
   | some t =>
     simp only [hw] at h
-    have hn := N.reachable hc s hr
-    refine ⟨.step hr (a := .run w) (by show step c true s (.run w) = _; simp only [step, hw]; exact h), t, rfl, ?_⟩
-    exact stepThr_eff c hc s s' w t (hn.noAux w t hw) hw h
+    exact ⟨hr.step c hc (a := .run w) h0, t, rfl, stepThr_eff c hc s s' w t (hr.n.noAux w t hw) hw h⟩
 
 open NoKV.Snap in
 /-- entering Done / WaitForMark / a bare tryAdvance never needs the contract -/
-theorem spawn_reach (c : WMCfg) (s s' : St) (w : Nat) (call : Call) (hk : call.kind.isBegin = false)
-    (hr : Reachable (sys c true) s) (h : step c false s (call.act w) = some s') :
-    Reachable (sys c true) s' := by
-  refine .step hr (a := call.act w) ?_
-  show step c true s (call.act w) = some s'
+theorem spawn_reach (c : WMCfg) (hc : c.countsFirst = true) (s s' : St) (w : Nat) (call : Call)
+    (hk : call.kind.isBegin = false) (hr : Ok s) (h : step c false s (call.act w) = some s') : Ok s' := by
+  refine hr.step c hc (a := call.act w) ?_
   cases call with
   | begin i => simp [Call.kind, Kind.isBegin] at hk
   | done i => exact h
@@ -359,11 +480,10 @@ theorem spawn_reach (c : WMCfg) (s s' : St) (w : Nat) (call : Call) (hk : call.k
   | adv => exact h
 
 /-- entering `Begin(i)` with the contract's side conditions established by the caller -/
-theorem begin_reach (c : WMCfg) (s s' : St) (w i : Nat) (hpos : 0 < i) (hbusy : s.sectionBusy = false)
-    (hlast : s.lastIndex < i) (hr : Reachable (sys c true) s)
-    (h : step c false s (.begin w i) = some s') : Reachable (sys c true) s' := by
-  refine .step hr (a := .begin w i) ?_
-  show step c true s (.begin w i) = some s'
+theorem begin_reach (c : WMCfg) (hc : c.countsFirst = true) (s s' : St) (w i : Nat) (hpos : 0 < i)
+    (hbusy : s.sectionBusy = false) (hlast : s.lastIndex < i) (hr : Ok s)
+    (h : step c false s (.begin w i) = some s') : Ok s' := by
+  refine hr.step c hc (a := .begin w i) ?_
   simp only [step] at h ⊢
   split at h
   · rename_i hg
@@ -371,109 +491,41 @@ theorem begin_reach (c : WMCfg) (s s' : St) (w i : Nat) (hpos : 0 < i) (hbusy : 
     exact h
   · cases h
 
-/-! ### what C32's invariants give in a state of the contract system -/
+/-! ### what C32's invariants give in an Ok state -/
 
 /-- `doneUntil ≤ lastIndex` -/
-theorem du_le_last (c : WMCfg) (hc : c.countsFirst = true) (s : St) (hr : Reachable (sys c true) s) :
-    s.doneUntil ≤ s.lastIndex := (N.reachable hc s hr).le
+theorem du_le_last (s : St) (hr : Ok s) : s.doneUntil ≤ s.lastIndex := hr.n.le
 
 /-- an index that is counted and whose `Done` has not decremented is above the mark -/
-theorem above_mark (c : WMCfg) (hc : c.countsFirst = true) (s : St) (hr : Reachable (sys c true) s) (j : Nat)
+theorem above_mark (s : St) (hr : Ok s) (j : Nat)
     (hcnt : 1 ≤ s.nCounted j) (hdec : s.nDoneDec j = 0) : s.doneUntil < j := by
-  have hn := N.reachable hc s hr
   cases Nat.lt_or_ge s.doneUntil j with
   | inl h1 => exact h1
-  | inr h1 => have := hn.m j h1; omega
+  | inr h1 => have := hr.n.m j h1; omega
 
 /-- a `Begin(i)` that has not executed its `setLastIndex` yet: `lastIndex < i` -/
-theorem begin_unpublished (c : WMCfg) (hc : c.countsFirst = true) (s : St) (hr : Reachable (sys c true) s)
+theorem begin_unpublished (s : St) (hr : Ok s)
     (w : Nat) (t : Thr) (i : Nat) (hw : s.thr w = some t) (hk : t.kind = .begin i) (hst : t.stage ≤ 2) :
     s.lastIndex < i := by
-  have := ((N.reachable hc s hr).ti w t hw).preLt ⟨by rw [hk]; rfl, hst⟩
+  have := (hr.n.ti w t hw).preLt ⟨by rw [hk]; rfl, hst⟩
   rw [hk] at this
   exact this
 
 /-- `WaitForMark(i)` returns only with `doneUntil ≥ i` -/
-theorem wait_returned_le (c : WMCfg) (ct : Bool) (s : St) (hr : Reachable (sys c ct) s) (w : Nat) (t : Thr)
+theorem wait_returned_le (s : St) (hr : Ok s) (w : Nat) (t : Thr)
     (i : Nat) (hw : s.thr w = some t) (hk : t.kind = .wait i) (hret : t.returned = true) :
     i ≤ s.doneUntil := by
-  have := ((W.reachable c ct s hr) w t hw).returnedLe hret
+  have := (hr.w w t hw).returnedLe hret
   rw [hk] at this
   exact this
+
+/-- a `Begin(i)` past its first micro-step has been counted -/
+theorem begun_counted (s : St) (hr : Ok s) :
+    ∀ w t i, s.thr w = some t → t.kind = .begin i → 1 ≤ t.stage → 1 ≤ s.nCounted i := hr.bc
 
 /-- a `Begin` whose program has run out is past every instruction (stage ≥ 4 in either order) -/
 theorem begin_done_stage (c : WMCfg) (i st : Nat) (h : (progOf c (.begin i))[st]? = none) : 4 ≤ st := by
   simp only [List.getElem?_eq_none_iff] at h
   cases hcf : c.countsFirst <;> simp [progOf, hcf] at h <;> omega
-
-theorem init_sectionBusy : initSt.sectionBusy = false := rfl
-theorem init_lastIndex : initSt.lastIndex = 0 := rfl
-theorem init_nDoneDec (j : Nat) : initSt.nDoneDec j = 0 := rfl
-theorem init_thr (w : Nat) : initSt.thr w = none := rfl
-
-/-- One more invariant of the watermark system under the contract: a `Begin(i)` past its first
-micro-step has been counted. -/
-theorem begun_counted (c : WMCfg) (hc : c.countsFirst = true) (s : St)
-    (hr : Reachable (sys c true) s) :
-    ∀ w t i, s.thr w = some t → t.kind = .begin i → 1 ≤ t.stage → 1 ≤ s.nCounted i := by
-  refine Reachable.invariant (S := sys c true)
-    (fun s => N s ∧ ∀ w t i, s.thr w = some t → t.kind = .begin i → 1 ≤ t.stage → 1 ≤ s.nCounted i) ?_ ?_ s hr
-    |>.2
-  · intro s hs
-    cases hs
-    exact ⟨N.init, fun w t i ht => by simp [initSt] at ht⟩
-  · intro s a s' ⟨hn, ih⟩ hst
-    have hst : step c true s a = some s' := hst
-    refine ⟨N.preserved hc hn hst, ?_⟩
-    intro w t i ht hk hstage
-    -- a call entry: the new record is at stage 0, the counters do not move
-    have spawnCase : ∀ (x : Nat) (t0 : Thr), t0.stage = 0 → s'.thr x = some t0 →
-        (∀ y, y ≠ x → s'.thr y = s.thr y) → s'.nCounted = s.nCounted → 1 ≤ s'.nCounted i := by
-      intro x t0 h0 hself hoth hcnt
-      rw [hcnt]
-      by_cases hw : w = x
-      · subst hw; rw [hself] at ht; cases ht; omega
-      · rw [hoth w hw] at ht; exact ih w t i ht hk hstage
-    cases a with
-    | begin x j =>
-      simp only [step] at hst; split at hst <;> cases hst
-      exact spawnCase x { kind := .begin j } rfl (by simp [setThr]) (fun y hy => by simp [setThr, upd_other _ _ _ _ hy]) rfl
-    | done x j =>
-      simp only [step] at hst; split at hst <;> cases hst
-      exact spawnCase x { kind := .done j } rfl (by simp [setThr]) (fun y hy => by simp [setThr, upd_other _ _ _ _ hy]) rfl
-    | wait x j =>
-      simp only [step] at hst; split at hst <;> cases hst
-      exact spawnCase x { kind := .wait j } rfl (by simp [setThr]) (fun y hy => by simp [setThr, upd_other _ _ _ _ hy]) rfl
-    | adv x =>
-      simp only [step] at hst; split at hst <;> cases hst
-      exact spawnCase x { kind := .adv } rfl (by simp [setThr]) (fun y hy => by simp [setThr, upd_other _ _ _ _ hy]) rfl
-    | count x j =>
-      simp only [step] at hst; split at hst
-      · rename_i hg; exact absurd hg.2.1 (by simp)
-      · cases hst
-    | publish x j =>
-      simp only [step] at hst; split at hst
-      · rename_i hg; exact absurd hg.2 (by simp)
-      · cases hst
-    | run x =>
-      simp only [step] at hst
-      cases hx : s.thr x with
-      | none => simp [hx] at hst
-      | some tx =>
-        simp only [hx] at hst
-        have e := stepThr_eff c hc s s' x tx (hn.noAux x tx hx) hx hst
-        by_cases hw : w = x
-        · subst hw
-          obtain ⟨t', ht', hk', h1, h2⟩ := e.self
-          rw [ht] at ht'; cases ht'
-          by_cases h0 : tx.stage = 0
-          · exact e.first i (hk' ▸ hk) h0
-          · exact Nat.le_trans (ih w tx i hx (hk' ▸ hk) (by omega)) (e.cntMono i)
-        · cases hw' : s.thr w with
-          | none => rw [e.absent w hw'] at ht; cases ht
-          | some tw =>
-            obtain ⟨tw', h1, h2, h3⟩ := e.oth w tw hw hw'
-            rw [ht] at h1; cases h1
-            exact Nat.le_trans (ih w tw i hw' (h2 ▸ hk) (h3 ▸ hstage)) (e.cntMono i)
 
 end NoKV.Conc.WM
